@@ -320,7 +320,7 @@ def scope_env(m, t=None, edge=None, extra_owner=None):
                 owners[d["name"]] = tn + ".local"
         if edge is not None:
             for n, _ in t["edges"][edge].get("select") or []:
-                owners[n] = "%s.select#%d" % (tn, edge)
+                owners[n] = "%s.select/%d" % (tn, edge)
     if extra_owner:
         owners.update(extra_owner)
     return G.Env("global", owners, var_types, {})
@@ -543,7 +543,7 @@ def _cmp_inst(d, cls, w, g, analysed):
         d(cls + ":template", "%s %s instantiates %s, expected %s" % (cls, w["name"], g["templ"], w.get("root", w.get("templ"))))
     if g["unbound"] != w["unbound"]:
         d(cls + ":unbound", "%s %s: %d unbound parameters, expected %d" % (cls, w["name"], g["unbound"], w["unbound"]))
-    gm = {k.split("#")[0]: v for k, v in g["mapping"].items()}
+    gm = {k.split("|")[0]: v for k, v in g["mapping"].items()}
     if set(gm) != set(w["mapping"]):
         d(cls + ":mapping-keys", "%s %s maps %s, expected %s" % (cls, w["name"], sorted(gm), sorted(w["mapping"])))
     else:
